@@ -88,7 +88,7 @@ Definition pt_init_before_marker : N := 8.
 Definition pt_index_before : N := 9.
 Definition pt_index_committed : N := 10.
 
-Inductive origin := FromInit | FromOp | FromIdx.
+Inductive origin := FromInit | FromOp.
 (* an index task: (id, before, after) as passed to handleChange *)
 Definition task := (id * option value * option value)%type.
 
@@ -163,7 +163,11 @@ Definition idx_wrs (ix : bytes * (value -> option bytes)) (t : task) : writeset 
 Definition index_ws (g : cfg) (t : task) : writeset := flat_map (fun ix => idx_wrs ix t) (idxs g).
 
 (* ---- the process: client goroutine + task-queue goroutine, interleaved by a schedule ---- *)
-Inductive ev := ECommit (o : origin) (ws : writeset) | EAck (ok : bool) | EHit (pt : N).
+Inductive ev :=
+| ECommit (o : origin) (ws : writeset)   (* a value transaction of the client goroutine committed *)
+| EIdxCommit (ws : writeset)             (* an index transaction of the task-queue goroutine committed *)
+| EAck (ok : bool)
+| EHit (pt : N).
 Inductive act := AClient | AIndex.
 Record mstate := MS { prog : list mstep; queue : list task; trace : list ev }.
 
@@ -183,7 +187,7 @@ Definition step (g : cfg) (s : mstate) (a : act) : mstate :=
       | t :: q =>
           let ws := index_ws g t in
           MS (prog s) q (trace s ++ EHit pt_index_before
-                           :: (if is_nil ws then [] else [ECommit FromIdx ws]) ++ [EHit pt_index_committed])
+                           :: (if is_nil ws then [] else [EIdxCommit ws]) ++ [EHit pt_index_committed])
       end
   end.
 Definition exec (g : cfg) (sched : list act) (s : mstate) : mstate := fold_left (step g) sched s.
@@ -195,6 +199,7 @@ Fixpoint commits (tr : list ev) : list writeset :=
   match tr with
   | [] => []
   | ECommit _ ws :: r => ws :: commits r
+  | EIdxCommit ws :: r => ws :: commits r
   | _ :: r => commits r
   end.
 Fixpoint acks (tr : list ev) : nat :=
